@@ -8,8 +8,9 @@ use precis_core::{CodepointInfo, DerivedPropertyValue, Error};
 use std::borrow::Cow;
 
 pub const K: usize = 5;
-// distinct strings, distinct byte lengths (so that == is decided by length alone in most cases)
-const NAMES: [&str; K] = ["", "a", "bc", "d\u{e9}", "ghij"];
+// distinct strings of distinct byte lengths, each a PREFIX of the next: a rule may therefore answer with a
+// borrowed sub-slice of its input that differs from the input (a trimming rule), as well as with an owned string
+const NAMES: [&str; K] = ["", "a", "ab", "ab\u{e9}", "ab\u{e9}c"];
 
 fn idx(x: &str) -> usize {
     let mut i = 0;
@@ -42,6 +43,7 @@ pub fn stabilize_any_fn<S: Src>(s: &mut S) {
         i += 1;
     }
     let owned_when_equal = s.bool(); // an unchanged result may come back borrowed or owned
+    let borrow_prefix = s.bool(); // a shorter result may come back as a borrowed prefix of the input
     let start = s.below(K);
     let calls = Cell::new(0usize);
     let bad_arg = Cell::new(false);
@@ -57,6 +59,8 @@ pub fn stabilize_any_fn<S: Src>(s: &mut S) {
             Err(err_of(i))
         } else if n == i && !owned_when_equal {
             Ok(Cow::Borrowed(x))
+        } else if n < i && borrow_prefix {
+            Ok(Cow::Borrowed(&x[..NAMES[n].len()]))
         } else {
             Ok(Cow::Owned(String::from(NAMES[n])))
         }
